@@ -167,7 +167,8 @@ def c_obs(obs):
     if k == "invalid":
         return "OInvalid"
     if k == "duplicate":
-        return "(ODuplicate %d %d)" % (obs["ids"][0], obs["ids"][1])
+        a, b = [(i if i >= 0 else 9999) for i in (list(obs["ids"]) + [-1, -1])[:2]]
+        return "(ODuplicate %d %d)" % (a, b)
     if k == "missing":
         return '(OMissing "%s"%%string)' % obs["oh"]
     return "OOther"
